@@ -547,7 +547,9 @@ def run(ctx):
         evaluate(ctx, cc)
     nstates = ctx.n(24, 400)
     done = 0
-    while done < nstates and not ctx.out_of_time():
+    import time
+    soft = ctx.t0 + (100 if ctx.tier == "quick" and not ctx.escalated else 1e9)   # keep the quick tier well under 3 minutes
+    while done < nstates and not ctx.out_of_time() and time.time() < soft:
         evaluate(ctx, gen_cases(ctx.rng, 6, ctx.n(8, 24)))
         done += 6
     if ctx.evaluations and ctx.distinct_nontrivial < 20:
